@@ -515,4 +515,5 @@ pub fn run(ctx: &mut Ctx) {
         },
         &arb_check,
     );
+    ctx.fuzz(&crate::fuzzapi::PROST_CODEC, 30_000, 600_000, crate::fuzzapi::PROST_RUNS_PER_JOB, crate::fuzzapi::FUZZ_JOBS);
 }
